@@ -314,7 +314,9 @@ class PyDims:
             return a if not a.poly0 else b
         if isinstance(e, ast.Compare):
             vals = [self.ev(x, env, inst, fn, mname, owner) for x in [e.left] + list(e.comparators)]
-            for x, y in zip(vals, vals[1:]):
+            for (x, y), op in zip(zip(vals, vals[1:]), e.ops):
+                if isinstance(op, (ast.In, ast.NotIn, ast.Is, ast.IsNot)):
+                    continue  # membership relates a key to a container (a dictionary's values have another dimension); identity none
                 if x.t is not None and y.t is not None and not x.poly0 and not y.poly0 and x.elems is None and y.elems is None:
                     self.solver.equal(x.t, y.t, self.origin(owner, e, mname), norm(e))
             return V(DIMLESS)
